@@ -9,7 +9,7 @@ Open Scope R_scope.
 Theorem C07_gammastd_formula : forall (K : spi_consts) (Or : spi_oracles) x nd c0 c1 alpha beta,
   length (filter (fun v => fleb OpsR 0 v) (filter (fun v => negb (feqb OpsR v nd)) x)) <> 0%nat ->
   ~ k_09 K < p_zero_of x nd ->
-  gammafit OpsR Or K (firstn (c1 - c0) (skipn c0 x)) = Some (alpha, beta) -> alpha <> 0 -> beta <> 0 ->
+  gammafit OpsR Or K (cal_window OpsR x nd c0 c1) = Some (alpha, beta) -> alpha <> 0 -> beta <> 0 ->
   gammastd OpsR Or K x nd c0 c1 =
   map (fun v => if valid_obs OpsR nd v
                 then Some (o_ndtri Or (p_zero_of x nd + (1 - p_zero_of x nd) * o_gammainc Or alpha (v / beta)))
@@ -19,6 +19,13 @@ Print Assumptions C07_gammastd_formula.
 
 (** the fit: beta = mean / alpha over the positive values of the calibration slice, alpha = what
     Brent's method returns for log a - digamma a = log(mean) - mean(log) on [0.6, 1.4] x Thom's estimate *)
+(** what the fit sees are the calibration slice's cells other than nodata (whatever the sign of the nodata value) *)
+Theorem C07_fit_sees_observations_only : forall x nd c0 c1,
+  (forall v, In v (cal_window OpsR x nd c0 c1) -> v <> nd /\ In v (firstn (c1 - c0) (skipn c0 x))) /\
+  (forall v, In v (firstn (c1 - c0) (skipn c0 x)) -> v <> nd -> In v (cal_window OpsR x nd c0 c1)).
+Proof. exact cal_window_observations. Qed.
+Print Assumptions C07_fit_sees_observations_only.
+
 Theorem C07_gammafit : forall (K : spi_consts) (Or : spi_oracles) xs a b,
   gammafit OpsR Or K xs = Some (a, b) ->
   let pos := filter (fun x => Rltb 0 x) xs in
